@@ -237,8 +237,7 @@ def handle (c : Case) : Verdict :=
         p := { p1 with failAt := none }
         out := out ++ s!"f={res} sf={snapshot p} "
         label := "." ++ res
-        -- spec: a completed operation has its full effect; one that threw left every stream as it was —
-        -- except that a signed-number overload may already have appended its '-' (two appends), which is labelled
+        -- spec (C19): a completed operation has its full effect; one that threw left every stream as it was
         let afterA := sa.step op.toSpec
         let after := afterA.fn
         let obsRes := (obsKey c "f").getD ""
@@ -252,12 +251,15 @@ def handle (c : Case) : Verdict :=
             match judgeSnapshot before snap with
             | none => pure ()
             | some why =>
+              -- name the one partial effect that was found on the tree as first read
               let partialA := match op with
                 | .appendNum o true _ => sa.step (.append o [45])
                 | _ => sa
-              match judgeSnapshot partialA.fn snap with
-              | none => sa := partialA; label := label ++ ".partial-append"
-              | some _ => specWhy := s!"fault step (threw {obsRes}): {why}"
+              let isPartial := match op with
+                | .appendNum _ true _ => (judgeSnapshot partialA.fn snap).isNone
+                | _ => false
+              if isPartial then specWhy := "fault step: a failed growth left the '-' of a negative number in the stream"
+              else specWhy := s!"fault step (threw {obsRes}): {why}"
           else specWhy := s!"fault step: outcome {obsRes}"
     -- destroy every live stream: nothing may be left on the heap
     match destroyAll (List.range NOBJ) p with
